@@ -2,6 +2,7 @@ package props
 
 import (
 	"bytes"
+	"encoding/binary"
 	stdjson "encoding/json"
 	"fmt"
 	"reflect"
@@ -140,6 +141,22 @@ func (c *c07Ctx) decode(in []byte, op string) (reflect.Value, error, bool) {
 			fail("scan-mismatch", "scan-vs-unmarshal-acceptance", "on this %s input Scan returns %v but Unmarshal into a struct that declares no field (so that every top-level field is consumed by skipping) returns %v\ninput=%x", op, errScan, errSkip, clip(in, 200))
 			return x, err, false
 		}
+		// Parse, called field after field by the caller itself, sees what Scan sees:
+		// the same number of fields, the same verdict, and each remainder is the
+		// tail of the input it was given
+		np, errParse, pan3, badRem := parseChain(in)
+		if pan3 != "" {
+			fail("panic", "parse-panic:"+panicSite(pan3), "proto.Parse panicked on %s input %x: %s", op, clip(in, 200), pan3)
+			return x, err, false
+		}
+		if (errParse == nil) != (errScan == nil) || np != n {
+			fail("scan-mismatch", "parse-vs-scan", "on this %s input a chain of Parse calls yields %d fields then %v, Scan yields %d fields then %v\ninput=%x", op, np, errParse, n, errScan, clip(in, 200))
+			return x, err, false
+		}
+		if badRem != "" {
+			fail("scan-mismatch", "parse-remainder", "%s (%s input)\ninput=%x", badRem, op, clip(in, 200))
+			return x, err, false
+		}
 		if errScan == nil {
 			if recs, ok := ref.ParseMessage(in); ok && len(recs) != n {
 				fail("scan-mismatch", "scan-field-count", "Scan enumerated %d top-level fields, the reference parser sees %d\ninput=%x", n, len(recs), clip(in, 200))
@@ -148,6 +165,43 @@ func (c *c07Ctx) decode(in []byte, op string) (reflect.Value, error, bool) {
 		}
 	}
 	return x, err, true
+}
+
+// parseChain calls proto.Parse on b, then on the remainder it returned, until
+// the input is used up or Parse fails.
+func parseChain(b []byte) (n int, err error, pan, badRem string) {
+	defer func() {
+		if e := recover(); e != nil {
+			pan = fmt.Sprintf("%v\n%s", e, stackOfLibrary())
+		}
+	}()
+	off := 0
+	for off < len(b) && n <= len(b) {
+		_, wt, v, rest, e := proto.Parse(b[off:])
+		if e != nil {
+			return n, e, "", ""
+		}
+		n++
+		used := len(b) - off - len(rest)
+		if used <= 0 || !bytes.Equal(rest, b[off+used:]) {
+			return n, nil, "", fmt.Sprintf("Parse at offset %d returned a remainder of %d bytes that is not the tail of its input", off, len(rest))
+		}
+		if len(v) > used || !bytes.Equal(v, b[off+used-len(v):off+used]) {
+			return n, nil, "", fmt.Sprintf("Parse at offset %d returned a value (%d bytes) that is not the end of the field it consumed (%d bytes)", off, len(v), used)
+		}
+		switch wt {
+		case proto.Fixed32:
+			if len(v) != 4 {
+				return n, nil, "", fmt.Sprintf("Parse at offset %d returned a fixed32 value of %d bytes", off, len(v))
+			}
+		case proto.Fixed64:
+			if len(v) != 8 {
+				return n, nil, "", fmt.Sprintf("Parse at offset %d returned a fixed64 value of %d bytes", off, len(v))
+			}
+		}
+		off += used
+	}
+	return n, nil, "", ""
 }
 
 func unmarshalNoPanic(b []byte, x any) (err error, pan string) {
@@ -187,9 +241,15 @@ func (c *c07Ctx) scanCheck(e []byte) bool {
 				return false, nil
 			}
 		case 5:
-			_ = v.Fixed32()
+			if want := binary.LittleEndian.Uint32(e[rc.VOff:rc.End]); v.Fixed32() != want {
+				bad = fmt.Sprintf("RawValue.Fixed32 of field #%d = %#x, expected %#x", i, v.Fixed32(), want)
+				return false, nil
+			}
 		case 1:
-			_ = v.Fixed64()
+			if want := binary.LittleEndian.Uint64(e[rc.VOff:rc.End]); v.Fixed64() != want {
+				bad = fmt.Sprintf("RawValue.Fixed64 of field #%d = %#x, expected %#x", i, v.Fixed64(), want)
+				return false, nil
+			}
 		}
 		i++
 		return true, nil
